@@ -736,7 +736,14 @@ func (pm *ProtocolManager) handleMsg(p *peer) error {
 			return err
 		}
 
-		msg := msgCache.Pop()
+		// wait for the next message or for the reader's error: when the connection drops while no message
+		// is queued, a bare Pop() would block this goroutine (and keep the peer and its cache) forever
+		var msg *p2p.Msg
+		select {
+		case err := <-errCh:
+			return err
+		case msg = <-msgCache.cache:
+		}
 		err := pm.work(msg, p)
 		if err != nil {
 			close(closeCh)
